@@ -3,6 +3,7 @@ CONSTANTS
   Vouchers = {"va", "vb", "vc"}
   AmtClasses = {"1", "2", "zero", "garbage", "neg"}
   RecvClasses = {"user", "invalid", "blocked", "hexsender"}
+  NatMax = 2
   BackDenoms = {"va", "vb", "vc"}
   HookReturnsAck = TRUE
   Depth = 10
